@@ -17,6 +17,7 @@
 //	v(x...)      logs the canonical rendering of its arguments, yields nil (Show)
 //	boom(id)     logs "boom<id>" and then fails with a runtime error (Boom)
 //	mkch(x...)   yields a closed buffered channel holding x... (ChanOf)
+//	nilfn        a variable holding a nil Go function value (HostNilFunc)
 package ir
 
 // Expr is an expression node.
@@ -80,6 +81,10 @@ type (
 	Show struct{ Args []Expr }
 	// Boom is the host call boom(ID): a call that fails.
 	Boom struct{ ID int }
+	// HostNilFunc is the host variable `nilfn`: a Go function value that is
+	// nil.  It is a function as far as `defer` / call syntax goes; calling it
+	// fails with a runtime error.
+	HostNilFunc struct{}
 	// ChanOf is the host call mkch(Elems...).
 	ChanOf struct{ Elems []Expr }
 	// FuncLit is a function literal.  With a Name it also binds the name in
@@ -116,6 +121,7 @@ func (Seq) isExpr()         {}
 func (Show) isExpr()        {}
 func (Boom) isExpr()        {}
 func (ChanOf) isExpr()      {}
+func (HostNilFunc) isExpr() {}
 func (*FuncLit) isExpr()    {}
 func (Call) isExpr()        {}
 
